@@ -10,7 +10,7 @@
      bin_round_trip_maps   : C01's round trip + the three NoDup facts about the parsed archive
                              (general: any wf_archive / fits32 archive);
      bin_round_trip_obs    : wf_archive a -> fits32 a -> (no annotated cell) ->
-                             exists f a', serialize m a = Ok f /\ from_bytes (a_endian a) f = Ok a' /\ obs_equal a a';
+                             exists f a', serialize_k kf m a = Ok f /\ from_bytes (a_endian a) f = Ok a' /\ obs_equal a a';
      plain_labelled_wf / plain_labelled_fits : what the text writer builds is in C01's domain;
      bin_round_trip_plain  : forall m, bin_round_trip_premise m   (the premise of C06's byte level).
 
@@ -26,10 +26,10 @@ Import ListNotations.
 Local Open Scope N_scope.
 
 (* ------------------------------------------------------------------ general: C01 + NoDup of the parsed maps *)
-Theorem bin_round_trip_maps m a :
+Theorem bin_round_trip_maps kf m a :
   wf_archive a -> fits32 a ->
   exists f a',
-    BinFormat.serialize m a = Ok f /\ wfb f /\ BinFormat.from_bytes (a_endian a) f = Ok a' /\
+    BinFormat.serialize_k kf m a = Ok f /\ wfb f /\ BinFormat.from_bytes (a_endian a) f = Ok a' /\
     a_endian a' = a_endian a /\ a_cstrs a' = [] /\
     size a' = size a + lenN (pool_bytes a) /\ (a_cstrs a = [] -> size a' = size a) /\
     (forall i, (i < N.to_nat (size a))%nat -> outside (cells a) i -> nth_error (a_data a') i = nth_error (a_data a) i) /\
@@ -39,8 +39,8 @@ Theorem bin_round_trip_maps m a :
     NoDup (am_keys (a_ptrs a')) /\ NoDup (am_keys (a_text a')) /\ NoDup (am_keys (a_labels a')).
 Proof.
   intros WF FIT.
-  destruct (round_trip m a WF FIT) as (f & a' & Hs & Hw & Hp & He & Hcs & Hsz & _ & Hsz0 & Hd & Gt & Gp & Gl & _).
-  destruct (serialize_conforms m a WF FIT) as (f2 & Hs2 & _ & Hc).
+  destruct (round_trip kf m a WF FIT) as (f & a' & Hs & Hw & Hp & He & Hcs & Hsz & _ & Hsz0 & Hd & Gt & Gp & Gl & _).
+  destruct (serialize_conforms kf m a WF FIT) as (f2 & Hs2 & _ & Hc).
   assert (Ef : f2 = f) by congruence. subst f2.
   destruct (parser_correct _ _ _ Hc) as (a2 & Hp2 & _ & _ & _ & _ & _ & _ & N1 & N2 & N3).
   assert (Ea : a2 = a') by congruence. subst a2.
@@ -57,12 +57,12 @@ Proof.
 Qed.
 
 (* ------------------------------------------------------------------ archives without annotated cells *)
-Theorem bin_round_trip_obs m a :
+Theorem bin_round_trip_obs kf m a :
   wf_archive a -> fits32 a -> a_text a = [] -> a_ptrs a = [] -> a_cstrs a = [] ->
-  exists f a', BinFormat.serialize m a = Ok f /\ BinFormat.from_bytes (a_endian a) f = Ok a' /\ obs_equal a a'.
+  exists f a', BinFormat.serialize_k kf m a = Ok f /\ BinFormat.from_bytes (a_endian a) f = Ok a' /\ obs_equal a a'.
 Proof.
   intros WF FIT Et Ep Ec.
-  destruct (bin_round_trip_maps m a WF FIT) as (f & a' & Hs & _ & Hp & He & _ & _ & Hsz & Hd & Gt & Gp & Gl & _ & _ & N3).
+  destruct (bin_round_trip_maps kf m a WF FIT) as (f & a' & Hs & _ & Hp & He & _ & _ & Hsz & Hd & Gt & Gp & Gl & _ & _ & N3).
   specialize (Hsz Ec).
   assert (Ecells : cells a = []) by (unfold cells, cs_cells; rewrite Et, Ep, Ec; reflexivity).
   assert (Edata : a_data a' = a_data a).
@@ -136,23 +136,23 @@ Proof.
 Qed.
 
 (* the premise of the byte-level statements of C06 (Proofs/TextFormatRoundTrip.v), discharged *)
-Theorem bin_round_trip_plain : forall m, bin_round_trip_premise m.
+Theorem bin_round_trip_plain : forall kf m, bin_round_trip_premise kf m.
 Proof.
-  intros m a H. pose proof H as (Et & Ep & Ec & _).
+  intros kf m a H. pose proof H as (Et & Ep & Ec & _).
   apply bin_round_trip_obs; [apply plain_labelled_wf | apply plain_labelled_fits | | | ]; assumption.
 Qed.
 
 (* ------------------------------------------------------------------ C06, byte level, premise-free *)
-Theorem text_round_trip_bytes_final : forall m fmt e t, wf_text fmt t -> wf_text_bytes fmt e t ->
-  exists f t', TextFormat.serialize m fmt e t = Ok f /\ TextFormat.from_bytes fmt e f = Ok t' /\ same_text fmt t t'.
-Proof. intros m. exact (text_round_trip_bytes_explicit m (bin_round_trip_plain m)). Qed.
+Theorem text_round_trip_bytes_final : forall kf m fmt e t, wf_text fmt t -> wf_text_bytes fmt e t ->
+  exists f t', TextFormat.serialize kf m fmt e t = Ok f /\ TextFormat.from_bytes fmt e f = Ok t' /\ same_text fmt t t'.
+Proof. intros kf m. exact (text_round_trip_bytes_explicit kf m (bin_round_trip_plain kf m)). Qed.
 
-Theorem text_layout_bytes_final : forall m fmt e t, wf_text_bytes fmt e t ->
-  exists f a', TextFormat.serialize m fmt e t = Ok f /\ BinFormat.from_bytes e f = Ok a' /\
+Theorem text_layout_bytes_final : forall kf m fmt e t, wf_text_bytes fmt e t ->
+  exists f a', TextFormat.serialize kf m fmt e t = Ok f /\ BinFormat.from_bytes e f = Ok a' /\
     forall i k msg, nth_error (t_entries t) i = Some (k, msg) ->
       let off := entry_offset fmt t i in
       off mod 4 = 0 /\ read_labels a' off = Ok (Some [k]) /\ sliceN off (lenN (cell fmt msg)) (a_data a') = Some (cell fmt msg).
-Proof. intros m. exact (text_layout_bytes m (bin_round_trip_plain m)). Qed.
+Proof. intros kf m. exact (text_layout_bytes kf m (bin_round_trip_plain kf m)). Qed.
 
 (* ------------------------------------------------------------------ files: the parser on ANY conforming file *)
 (* the archive value a file's content denotes (what a reader layered on the bin archive sees) *)
@@ -202,11 +202,11 @@ Qed.
 
 (* ------------------------------------------------------------------ the layout, stated on the FILE through [conforms] *)
 (* what C01's serialize_conforms publishes for an archive without annotated cells is the archive itself *)
-Lemma plain_published a : plain_labelled a ->
-  c_data (published a) = a_data a /\ c_labels (published a) = a_labels a /\ c_text (published a) = [] /\ c_ptrs (published a) = [].
+Lemma plain_published kf a : plain_labelled a ->
+  c_data (published kf a) = a_data a /\ c_labels (published kf a) = a_labels a /\ c_text (published kf a) = [] /\ c_ptrs (published kf a) = [].
 Proof.
   intros P. pose proof (plain_labelled_wf a P) as WF. destruct P as (Et & Ep & Ec & _).
-  destruct (published_data_len a WF) as (L1 & _ & L3). specialize (L3 Ec).
+  destruct (published_data_len kf a WF) as (L1 & _ & L3). specialize (L3 Ec).
   split; [|split; [reflexivity | split]].
   - apply nth_error_eq_ext.
     + unfold size, lenN in *. lia.
@@ -220,8 +220,8 @@ Qed.
    description independently of serialize and from_bytes) with a content whose data region is the title cell followed by
    the message cells and whose label map puts exactly [key] on every message offset: "in the file every message starts on a
    4-byte boundary and carries its key as the label of that address", without going through the model's own parser *)
-Theorem text_layout_conforms m fmt e t : wf_text_bytes fmt e t ->
-  exists f c, TextFormat.serialize m fmt e t = Ok f /\ wfb f /\ conforms e f c /\
+Theorem text_layout_conforms kf m fmt e t : wf_text_bytes fmt e t ->
+  exists f c, TextFormat.serialize kf m fmt e t = Ok f /\ wfb f /\ conforms e f c /\
     c_ptrs c = [] /\ c_text c = [] /\
     c_data c = a_data (TextFormatWrite.text_image fmt e t) /\ c_labels c = a_labels (TextFormatWrite.text_image fmt e t) /\
     forall i k msg, nth_error (t_entries t) i = Some (k, msg) ->
@@ -229,9 +229,9 @@ Theorem text_layout_conforms m fmt e t : wf_text_bytes fmt e t ->
       off mod 4 = 0 /\ am_get off (c_labels c) = Some [k] /\ sliceN off (lenN (cell fmt msg)) (c_data c) = Some (cell fmt msg).
 Proof.
   intros Hb. pose proof (text_image_plain fmt e t Hb) as P.
-  destruct (serialize_conforms m _ (plain_labelled_wf _ P) (plain_labelled_fits _ P)) as (f & Hs & Hw & Hc).
-  destruct (plain_published _ P) as (Pd & Pl & Pt & Pp).
-  exists f, (published (TextFormatWrite.text_image fmt e t)).
+  destruct (serialize_conforms kf m _ (plain_labelled_wf _ P) (plain_labelled_fits _ P)) as (f & Hs & Hw & Hc).
+  destruct (plain_published kf _ P) as (Pd & Pl & Pt & Pp).
+  exists f, (published kf (TextFormatWrite.text_image fmt e t)).
   split; [unfold TextFormat.serialize; rewrite TextFormatWrite.build_archive_spec; cbn [bind]; exact Hs|].
   split; [exact Hw|]. split; [exact Hc|]. split; [exact Pp|]. split; [exact Pt|]. split; [exact Pd|]. split; [exact Pl|].
   intros i k msg Hn. destruct (TextFormatRoundTrip.text_image_layout fmt e t i k msg Hn) as (H1 & H2 & H3 & _).
